@@ -85,6 +85,12 @@ CHECKS = {
   note="Floating-point rounding is outside TLA+: ratios compared with 1e-9 relative tolerance; at an exact unit boundary either neighbouring unit is accepted when the magnitude is within 1e-9 of it.",
   technique="TLA+ symbolic unit algebra checked by TLC; enumerated cases replayed on the real measurement package with exact rational oracles",
   design_ref="DESIGN.md 5/C15"),
+ "C16": dict(
+  category="model_checking",
+  text="Fetch.tla: two groups (sources, bases) in parallel, chunks of ChunkSize, one process per source with independently enabled Start/Complete so that TLC explores every completion order and failure subset, the barrier, index-ordered collection with error accounting, incremental merge, Decide; TLC checks ResultIsMergeOfSucceededInOrder, OneErrorPerFailure, FailsIffGroupEmpty, NoReadBeforeBarrier and termination (liveness under fairness), with chunk sizes that cross boundaries in the model, and rejects three broken designs. Every behaviour (failure subset x completion order, 3 sources + 1 base) is forced on the real driver with a gating, fault-injecting Fetcher and transport; runs with 127..300 sources cross the real chunk size of 128 under forward/reverse/random orders; TraceFetch.tla decides every recorded run (merge = exactly the succeeded sources in command-line order, one error line per failure, failure iff a group is empty).",
+  note="Completion order is forced at the Fetcher plug-in boundary; the goroutine's bookkeeping after Fetch returns is not gated (Go offers no scheduler control).",
+  technique="TLA+ concurrent fetch model checked exhaustively by TLC (safety + liveness); schedule-directed replay with a gating Fetcher; TLC trace validation",
+  design_ref="DESIGN.md 5/C16"),
 }
 
 NOT_YET = "check not built yet in this session (planned in DESIGN.md section 5)"
